@@ -85,34 +85,39 @@ _EX = {
            'gate, bounded read, whole body decoded before the first dispatch, one receive per '
            'packet in order, closed-test before every dispatch; WebSocket loop: one dispatch per '
            'frame, unknown types ignored; protocol errors routed to 400 + session end. '
-           'Also: an EngineIOError subclass raised by the session handlers is taken by the protocol-error clause and by no earlier clause (exception classes may have several bases); the packet decode table; ASGI body assembly.',
+           'Also: an EngineIOError subclass raised by the session handlers is taken by the protocol-error clause and by no earlier clause (exception classes may have several bases); the packet decode table; ASGI body assembly. '
+           'Also: every asyncio driver maps the request to a CGI-style environ (Content-Length / Content-Type / HTTP_*), runs the handler it was built with and hands received frames on.',
     'C05': 'ONCE(disconnect) in close(): guard on closed/closing, closing=True before the handler, '
            'nothing between test and set, flags monotone; reasons per close site; nothing is '
            'dispatched to a closed session (POST loop and WebSocket loop); handler exceptions are '
            'contained by a catch-all around every handler call (connect: reject); the connect '
            'event fires once after the session is stored and OPEN queued; reject path removes the '
-           'entry and serves nothing.',
+           'entry and serves nothing. '
+           'Also: the tornado driver queues its close marker into an unbounded queue.',
     'C06': 'Every path that sets upgraded=True on a connected session carries wait -> PING probe '
            '-> send PONG probe -> queue NOOP -> wait -> UPGRADE in order; EXIT-STATE: on every '
            'exit (normal or explicit-raise) of the upgrade request region (_upgrade_websocket + '
            'driver call + handler + frame reader, inlined) upgrading is False; an upgraded '
            'session refuses re-upgrade before a driver object exists; direct WebSocket sessions '
            'are upgraded before any I/O; the upgrade protocol must be a configured transport. '
-           'Also: no EngineIOError (sub)class leaves the handshake (handle_request would end the polling session for it), with per-flavour driver raise summaries; without a driver the upgrade is refused with 400 and no effect.',
+           'Also: no EngineIOError (sub)class leaves the handshake (handle_request would end the polling session for it), with per-flavour driver raise summaries; without a driver the upgrade is refused with 400 and no effect. '
+           'Also: a driver WebSocket object runs the handler it was built with.',
     'C07': 'Wiring and bounds, not timing: schedule_ping starts one _send_ping; _send_ping clears '
            'last_ping, sleeps exactly ping_interval, then on every path with the session neither '
            'closing nor closed stamps last_ping and sends PING; check_ping_timeout closes iff '
            'last_ping set and now - last_ping - ping_timeout > 0 (linear form) with PING_TIMEOUT, '
            'wait=False, abort=False; send() evaluates it before enqueuing; poll waits at most '
            'ping_interval + ping_timeout. '
-           'Also: last_ping is written only by the constructor and _send_ping; the session queue is created without a size (put() never blocks the monitor); a monitor pass is not left early except on the stop signal.',
+           'Also: last_ping is written only by the constructor and _send_ping; the session queue is created without a size (put() never blocks the monitor); a monitor pass is not left early except on the stop signal. '
+           'Also: the monitor idles exactly when the table is empty and is started by default; the packet-count gate (C02) under this property.',
     'C08': 'connect() always starts with a fresh queue; failed connects raise ConnectionError '
            'before state/registration change; success adopts the announced values, fires connect '
            'once, starts the loops; disconnect(): one event after the state left "connected", '
            'CLOSE + sentinel, unregister, _reset; read-loop epilogues: ONCE with state change '
            'before the event, unregister + reset, every failure break preceded by put(None); read '
            'timeouts bounded by the announced timing. '
-           'Also: _reset() unconditionally sets state/sid first and clears nothing that connect() reads after the handshake packets / connect handler ran; response bodies are decoded under the invalid-response handler; handler calls of _trigger_event are contained and the legacy disconnect retry has the client arity.',
+           'Also: _reset() unconditionally sets state/sid first and clears nothing that connect() reads after the handshake packets / connect handler ran; response bodies are decoded under the invalid-response handler; handler calls of _trigger_event are contained and the legacy disconnect retry has the client arity. '
+           'Also: 2xx gates of the polling responses as integer forms, loop conditions, write-loop sentinel, create_queue/_send_request return values, transports normalisation, a closed HTTP session is replaced.',
     'C09': 'Dispatch table of _receive_packet over types 0..9 (PONG echoes pkt.data, MESSAGE one '
            'background event, CLOSE -> server disconnect, total on 0..9); write loop: dequeue '
            'order, no re-queue, polling batch as one payload, binary frames iff pkt.binary, batch '
@@ -138,13 +143,15 @@ _EX = {
            'table, _get_socket lookup, session-transport or upgrade match, numeric JSONP index); '
            'request attributes are derived by the expected expressions; refusals are 400/405 and '
            'inert (no event, close, queue access or table write); failed lookups never escape. '
-           'Also: the constructor stores transports as the list of valid names among the configured ones (never a bare string); the WSGI/ASGI middleware does not rewrite the request mapping; a refused upgrade leaves upgrading False.',
+           'Also: the constructor stores transports as the list of valid names among the configured ones (never a bare string); the WSGI/ASGI middleware does not rewrite the request mapping; a refused upgrade leaves upgrading False. '
+           'Also: every asyncio driver builds the environ the admission chain reads (raw query string, CGI header mapping).',
     'C13': 'The origin test is decided before query parsing / table access on every path; a '
            'refused origin returns 400 with no other effect; _cors_allowed_origins returns None or '
            'a list for every configuration kind (a single string is wrapped: exact match); ACAO is '
            'emitted only with the request origin under the accept condition; credentials iff '
            'enabled; nothing when disabled. '
-           'Also: the constructor stores the origin policy unchanged; every response gets the CORS headers computed from its own request, appended to a copy of a fresh header list.',
+           'Also: the constructor stores the origin policy unchanged; every response gets the CORS headers computed from its own request, appended to a copy of a fresh header list. '
+           'Also: Allow-Methods / Allow-Headers are emitted exactly for OPTIONS / when the request names headers; the conditions under which the default origin set is built.',
     'C14': 'Linear-form size gates: POST refused iff length - max > 0 before any read, read '
            'bounded by the checked length; WebSocket frames read only through the gated reader '
            '(len - max > 0 refuses), all three read points; packet count gate (C02); oversize '
@@ -156,7 +163,8 @@ _EX = {
            'lookups do not escape; NO-BLOCK: no unbounded blocking primitive reachable from '
            'handle_request (non-upgrade), send, send_packet, disconnect after pruning by literal '
            'keyword arguments; ASGI make_response event sequences; translate_request totality. '
-           'Also: ASGI header values are encoded with the codec they are decoded with; disconnect() never hands asyncio.wait an empty or filtered collection; session queue unbounded; id counter arithmetic (C17) under this property.',
+           'Also: ASGI header values are encoded with the codec they are decoded with; disconnect() never hands asyncio.wait an empty or filtered collection; session queue unbounded; id counter arithmetic (C17) under this property. '
+           'Also: driver environ mapping; origin-set and upgrade-protocol rules under this property; the GET result is classified.',
     'C16': '_get_socket removes and refuses closed entries; send_packet is a silent no-op for dead '
            'ids and enqueues only on the addressed session; get/save_session, transport, session() '
            'reach the table through _get_socket(sid) and propagate KeyError; fresh session dict '
@@ -186,7 +194,8 @@ _EX = {
            '-> 404 as path guards; lifespan events answered by exactly one complete/failed and '
            'return; static files: the request-derived suffix reaches the filename only after a '
            'recognised ..-segment sanitizer; content type from mapping, extension, default. '
-           'Also: the middleware does not rewrite the request mapping; endpoint normalisation decided by constant folding over eight representative spellings (root endpoint included); lifespan callbacks sit under a catch-all.',
+           'Also: the middleware does not rewrite the request mapping; endpoint normalisation decided by constant folding over eight representative spellings (root endpoint included); lifespan callbacks sit under a catch-all. '
+           'Also: the request-derived remainder is appended to the mapped root (no path-joining API); the existence test is made per request (no memoised helper).',
 }
 
 
